@@ -243,8 +243,8 @@ PROPS = {
     "C39": dict(
         theorems=["BluetoeModel.Bootloader.flash_effects_inside_regions",
                   "BluetoeModel.Bootloader.control_point_reads_le_size",
-                  "BluetoeModel.Bootloader.effects_inside_regions_partial"],
-        witnesses=["BluetoeModel.Bootloader.effects_inside_regions_witness"],
+                  "BluetoeModel.Bootloader.effects_inside_regions"],
+        witnesses=[],
         run=run_c39,
         level="proof-partial",
         technique="Lean 4 invariant proof over all histories, page sizes and region lists of a model of bootloader::details::controller/flash_buffer + differential correspondence with the real service (effect trace) + white-list monitor and ASan",
